@@ -5,6 +5,7 @@ import Crusta.Proofs.Assemble
 import Crusta.Proofs.StaticAll
 import Crusta.Proofs.StoreIccma
 import Crusta.Proofs.GRename
+import Crusta.Proofs.GLocal
 
 /-!
 # C11 — statuses are invariant under presentation and mutually consistent (property theorems)
@@ -173,5 +174,62 @@ theorem solver_status_renaming_invariant (sk : SolverKind) (v1 v2 : FwView) (g :
 /-- all seven semantics over sparse id spaces commute with bijective renamings -/
 theorem semantics_renaming_invariant (g : G) (ρ : Bij) (σ : Sem) (S : ASet) :
     (g.rename ρ).Ext σ (ρ.image S) ↔ g.Ext σ S := G.ext_rename g ρ σ S
+
+/-- **adding an unrelated component** (on the solver programs): if the second view presents the
+disjoint union `g'` of the graph `g` of the first view and any other graph `h` (no attack between
+them), the statuses of arguments of `g` are the same on both views — for every solver type, provided
+`h` has an extension under the solver's semantics, which is automatic except for the stable
+semantics (`solver_status_local_all_but_stable`); when `h` has no stable extension, the stable
+solver answers NO to every credulous and YES to every skeptical query on the union
+(`stable_component_without_extension`). -/
+theorem solver_status_local (sk : SolverKind) (v1 v2 : FwView) (g h g' : G)
+    (hv1 : v1.Ok g) (hv2 : v2.Ok g') (d : DisjUnion g h g') (hex : ∃ T, h.Ext sk.sem T)
+    (args : List Nat) (hargs : ∀ a ∈ args, g.live a = true)
+    (cfg1 cfg2 : Cfg) (h1 : CfgOK sk cfg1) (h2 : CfgOK sk cfg2) (c1 c2 : Bool)
+    (w1 w2 : World) (hb1 : w1.Bounded) (hb2 : w2.Bounded) (rs1 rs2 : List Reply)
+    (a1 a2 : AccAns) (cv1 cv2 : Bool) (w1' w2' : World) :
+    (∀ p1 p2, entryProg sk cfg1 v1 (.dc c1 args) = some p1 → entryProg sk cfg2 v2 (.dc c2 args) = some p2 →
+      RunSound p1 rs1 w1 → RunSound p2 rs2 w2 →
+      interp p1 rs1 w1 = (.done (.acc a1 cv1), w1') → interp p2 rs2 w2 = (.done (.acc a2 cv2), w2') →
+      a1.status = a2.status) ∧
+    (∀ p1 p2, entryProg sk cfg1 v1 (.ds c1 args) = some p1 → entryProg sk cfg2 v2 (.ds c2 args) = some p2 →
+      RunSound p1 rs1 w1 → RunSound p2 rs2 w2 →
+      interp p1 rs1 w1 = (.done (.acc a1 cv1), w1') → interp p2 rs2 w2 = (.done (.acc a2 cv2), w2') →
+      a1.status = a2.status) :=
+  Crusta.solver_status_local sk v1 v2 g h g' hv1 hv2 d hex args hargs cfg1 cfg2 h1 h2 c1 c2 w1 w2 hb1 hb2 rs1 rs2
+    a1 a2 cv1 cv2 w1' w2'
+
+theorem solver_status_local_all_but_stable (sk : SolverKind) (hsk : sk ≠ .ST) (v1 v2 : FwView) (g h g' : G)
+    (hv1 : v1.Ok g) (hv2 : v2.Ok g') (d : DisjUnion g h g')
+    (args : List Nat) (hargs : ∀ a ∈ args, g.live a = true)
+    (cfg1 cfg2 : Cfg) (h1 : CfgOK sk cfg1) (h2 : CfgOK sk cfg2) (c1 c2 : Bool)
+    (w1 w2 : World) (hb1 : w1.Bounded) (hb2 : w2.Bounded) (rs1 rs2 : List Reply)
+    (a1 a2 : AccAns) (cv1 cv2 : Bool) (w1' w2' : World) :
+    (∀ p1 p2, entryProg sk cfg1 v1 (.dc c1 args) = some p1 → entryProg sk cfg2 v2 (.dc c2 args) = some p2 →
+      RunSound p1 rs1 w1 → RunSound p2 rs2 w2 →
+      interp p1 rs1 w1 = (.done (.acc a1 cv1), w1') → interp p2 rs2 w2 = (.done (.acc a2 cv2), w2') →
+      a1.status = a2.status) ∧
+    (∀ p1 p2, entryProg sk cfg1 v1 (.ds c1 args) = some p1 → entryProg sk cfg2 v2 (.ds c2 args) = some p2 →
+      RunSound p1 rs1 w1 → RunSound p2 rs2 w2 →
+      interp p1 rs1 w1 = (.done (.acc a1 cv1), w1') → interp p2 rs2 w2 = (.done (.acc a2 cv2), w2') →
+      a1.status = a2.status) :=
+  solver_status_local_nonstable sk hsk v1 v2 g h g' hv1 hv2 d args hargs cfg1 cfg2 h1 h2 c1 c2 w1 w2 hb1 hb2 rs1 rs2
+    a1 a2 cv1 cv2 w1' w2'
+
+theorem stable_component_without_extension (v2 : FwView) (g h g' : G)
+    (hv2 : v2.Ok g') (d : DisjUnion g h g') (hno : ¬ ∃ T, h.Ext .ST T)
+    (args : List Nat) (hargs : ∀ a ∈ args, g.live a = true)
+    (cfg2 : Cfg) (c2 : Bool)
+    (w2 : World) (hb2 : w2.Bounded) (rs2 : List Reply) (a2 : AccAns) (cv2 : Bool) (w2' : World) :
+    (∀ p2, entryProg .ST cfg2 v2 (.dc c2 args) = some p2 → RunSound p2 rs2 w2 →
+      interp p2 rs2 w2 = (.done (.acc a2 cv2), w2') → a2.status = false) ∧
+    (∀ p2, entryProg .ST cfg2 v2 (.ds c2 args) = some p2 → RunSound p2 rs2 w2 →
+      interp p2 rs2 w2 = (.done (.acc a2 cv2), w2') → a2.status = true) :=
+  solver_status_stable_none v2 g h g' hv2 d hno args hargs cfg2 c2 w2 hb2 rs2 a2 cv2 w2'
+
+/-- non-vacuity: one fresh self-attacking argument is such a component -/
+example (g : G) (hwf : g.WF) (hfin : ∃ n, ∀ a, g.live a = true → a < n) (k : Nat) (hk : g.live k = false) :
+    DisjUnion g (G.selfLoop k) (g.addSelfLoop k) ∧ ¬ ∃ T, (G.selfLoop k).Ext .ST T :=
+  ⟨G.addSelfLoop_disjUnion g hwf hfin k hk, G.selfLoop_no_stable k⟩
 
 end Crusta.C11
